@@ -168,6 +168,15 @@ def props_obligations(pid):
     return names, closed, o
 
 
+def coqchk(pid, timeout=1800):
+    """Independent re-check of Props/<pid>.vo and everything it depends on; returns (ok, axioms text)."""
+    with Lock("coq"):
+        rc, o = sh(["timeout", str(timeout), "coqchk", "-silent", "-o", "-Q", "theories", "WG", "WG.Props." + pid], cwd=COQ)
+    m = re.search(r'\* Axioms:\s*(.*?)(?:\n\s*\*|\Z)', o, re.S)
+    ax = re.sub(r'\s+', ' ', m.group(1)).strip() if m else o[-500:]
+    return rc == 0, ax
+
+
 def run_case_files(files, timeout=1800):
     """coqc each generated case file; returns {file: output}."""
     def one(f):
@@ -415,4 +424,10 @@ def finish(prop, tier, seed, t0, cases, stats, theorems, broken, fails, nviol, c
         "failures": fails[:10],
     }
     cov.update(getattr(prop, "extra_coverage", {}))
+    if tier == "thorough" and not broken and not os.environ.get("VERIF_NO_COQCHK"):
+        try:
+            ok, ax = coqchk(prop.pid)
+            cov["coqchk"] = {"ok": ok, "axioms": ax}
+        except Exception as e:  # never let the re-checker decide the verdict
+            cov["coqchk"] = {"ok": None, "error": str(e)[:300]}
     write_evidence(prop.pid, tier, seed, cov, time.time() - t0, nviol, getattr(prop, "assumptions", []))
